@@ -19,6 +19,16 @@ CLAIMED = {
         "level": "Every binary image on Cartesian grids of 6, 10, 3x3, 3x4, 2x2x3 cells (thorough: up to 14, 4x4, 2x3x3) for every periodicity mask and on cylindrical grids up to 2x5 (thorough 4x4) for both periodic_z, plus generated masks (noise, wrapped boxes, persistent walks) on grids up to 40/16^2/8^3; volume, unwrapped centre of mass, sphere non-overlap and justification of omissions.",
         "note": "Positions of winding components are not judged; one open known finding (winding on-axis component on periodic cylindrical grids) is excluded by signature and counted.",
     },
+    "C06": {
+        "technique": "exhaustive enumeration of lattice histories + Hypothesis-generated time courses; invariant over the history (multiset partition, input snapshot)",
+        "level": "All 3-frame histories over every subset of a 4-site (thorough 5-site) 1-D lattice x methods x cut-offs x {no grid, periodic}; generated time courses of 0-6 (10) frames, any droplet class, dims 1-3, three placement modes, all cut-offs; partition invariant, gap-free/at-most-once under the stated premise, input unmodified.",
+        "note": "Premise (no within-frame overlap) evaluated with an independent minimal-image metric and a 1e-9 margin.",
+    },
+    "C07": {
+        "technique": "exhaustive lattice histories + Hypothesis-generated identity-preserving motion histories; differential against a re-implemented overlap relation and greedy closest-pair matching",
+        "level": "Links extracted from returned tracks compared with the oracle relation (overlap: link implies overlap, no-overlap implies new track, one-to-one relation followed exactly; distance: cut-off respected, no end/start pair within the cut-off, greedy matching when distances are distinct; motion histories keep identities across periodic boundaries).",
+        "note": "Cases violating the no-within-frame-overlap premise or with unidentifiable entries are skipped and counted (C06 judges those).",
+    },
     "C10": {
         "technique": _T + "; exhaustive sequences on a 1-D lattice with exact arithmetic; post-condition/invariant oracle",
         "level": "Generated emulsions (0-8 droplets, ties, radius 0, positions outside the box) x min_distance of either sign x grids with every periodicity mask; all ordered sequences of <=3 (thorough 4) lattice droplets exhaustively; from_random on bounds and every grid family.",
